@@ -92,6 +92,8 @@ Defs == [
   N7  |-> [flavour |-> "nt_sub",       module |-> "m1", py |-> "N7",  fields |-> << <<"s", P("str"), FALSE>>, <<"d", P("date"), FALSE>>, <<"v", P("Decimal"), FALSE>> >>],
   \* a TypedDict three levels deep: total root, total=False middle, total leaf
   TD8 |-> [flavour |-> "typeddict_inh3", module |-> "m1", py |-> "TD8", fields |-> << <<"id", P("int"), FALSE>>, <<"body", P("str"), TRUE>>, <<"kind", P("date"), FALSE>> >>],
+  \* a required key / member whose type admits None (present-and-None is not absent)
+  TD9 |-> [flavour |-> "typeddict",    module |-> "m1", py |-> "TD9", fields |-> << <<"user", P("str"), FALSE>>, <<"nick", Opt(P("str")), FALSE>> >>],
   \* a dataclass whose instances are falsy (a status object, an empty page: __bool__ / __len__ belong to the value, not to its type)
   F1  |-> [flavour |-> "dc_falsy",     module |-> "m1", py |-> "F1",  fields |-> << <<"n", P("int"), FALSE>>, <<"at", P("date"), FALSE>> >>],
   \* a dataclass whose instances can be called (a structured class like any other)
